@@ -10,6 +10,8 @@ argv[1] is a JSON script:
              errshape  "error" member that is not an error object
              version   a result under another protocol version ("jsonrpc": "1.0")
              badresult a result of the wrong shape for a typed method (a Hover whose range is a number)
+  srvreq   number of requests ("c17/slow", ids "srv-0", ...) sent to the client right after start;
+           the client's answers to them (messages without a "method") are read but not counted
   pre      list of byte strings (latin-1) written right after start (complete items: bad frames, junk)
   tail     byte string (latin-1) written just before exiting (partial header / partial body / junk / "")
 """
@@ -51,6 +53,8 @@ def main():
             os.kill(os.getpid(), signal.SIGKILL)
         os._exit(int(kind))
 
+    for j in range(sc.get("srvreq", 0)):
+        out.write(frame({"jsonrpc": "2.0", "id": "srv-%d" % j, "method": "c17/slow", "params": {"j": j}}))
     for p in sc.get("pre", []):
         out.write(p.encode("latin-1"))
     out.flush()
@@ -62,6 +66,8 @@ def main():
         msg = read_message(inp)
         if msg is None:          # the client went away: never outlive it
             os._exit(3)
+        if "method" not in msg:  # an answer to one of our requests
+            continue
         n += 1
         a = sc.get("answers", {}).get(str(n))
         if a is not None and "id" in msg:
